@@ -45,7 +45,7 @@ def _spin_like(lt, lp):
     return False
 
 
-def no_yield_under_spinlock(R, prog, P, files, min_sites=5, exempt=None):
+def no_yield_under_spinlock(R, prog, P, files, min_sites=5, exempt=None, include_inline_members=False):
     """K5: no call into the may-yield set while a spinlock-like lock is held, except the
     hand-off forms that release that very lock during the call."""
     rule = P + '.K5'
